@@ -183,19 +183,7 @@ func Run(c *hx.Ctx) {
 			if o.Verb == "restart" {
 				// clean stop: the caches are written to disk (node/full.go:484-495), possibly cut short by a crash
 				root = w.env.Root
-				if err := w.env.M.SaveCache(); err != nil {
-					c.Report("C04/save-cache-fails", err.Error())
-				}
-				if cut := o.Str("cut"); cut != "" {
-					f := filepath.Join(w.env.CacheDir(), filepath.FromSlash(cut))
-					if b, err := os.ReadFile(f); err == nil {
-						at := len(b) * o.Int("frac") / 100
-						_ = os.WriteFile(f, b[:at], 0o644)
-						if at < len(b) {
-							w.cause = "cache-file-truncated"
-						}
-					}
-				}
+				w.saveCaches(o)
 			}
 			keepRoot := w.env
 			c.Emit("%s", w.start(img, root))
@@ -223,6 +211,68 @@ func Run(c *hx.Ctx) {
 			}
 		default:
 			c.Emit("bad-op")
+		}
+	}
+}
+
+// saveCaches runs the real Manager.SaveCache and, for `restart cut=<file> frac=<n>`, turns the directory into the
+// image a crash during the save of that file leaves: the files saved before it are new, the files after it are
+// what they were before the save (complete older versions, or absent). What becomes of the file itself is decided
+// by the probe of the real pkg/cache (ProbeCacheSave), not assumed:
+//   - files are replaced atomically: the path keeps its OLD version and a partly written `<file>.tmp` (the first
+//     frac % of the new encoding) is left beside it;
+//   - files are rewritten in place: the path holds the first frac % of the new encoding (a truncated file).
+func (w *World) saveCaches(o hx.Op) {
+	c := w.c
+	dir := w.env.CacheDir()
+	path := func(i int) string { return filepath.Join(dir, filepath.FromSlash(CacheFiles[i])) }
+	old := make([][]byte, len(CacheFiles)) // nil = absent
+	for i := range CacheFiles {
+		if b, err := os.ReadFile(path(i)); err == nil {
+			old[i] = append([]byte{}, b...)
+		}
+	}
+	if err := w.env.M.SaveCache(); err != nil {
+		c.Report("C04/save-cache-fails", err.Error())
+	}
+	i := cacheIndex(o.Str("cut"))
+	if i < 0 {
+		return
+	}
+	probe, err := cacheProbe()
+	if err != nil {
+		c.Report("C04/cache-probe-fails", err.Error())
+		return
+	}
+	restore := func(j int) {
+		if old[j] == nil {
+			_ = os.Remove(path(j))
+		} else {
+			_ = os.WriteFile(path(j), old[j], 0o644)
+		}
+	}
+	b, err := os.ReadFile(path(i))
+	if err != nil {
+		c.Report("C04/save-cache-fails", "not written: "+CacheFiles[i])
+		return
+	}
+	at := len(b)
+	if fr, _ := o.U64("frac"); fr < 100 {
+		at = len(b) * int(fr) / 100
+	}
+	for j := i + 1; j < len(CacheFiles); j++ {
+		restore(j)
+	}
+	if probe.Atomic {
+		c.Hit("cache-cut-old-version-and-tmp")
+		restore(i)
+		_ = os.WriteFile(path(i)+".tmp", b[:at], 0o644)
+		w.cause = "cache-tmp-file-left-over"
+	} else {
+		c.Hit("cache-cut-truncated-in-place")
+		_ = os.WriteFile(path(i), b[:at], 0o644)
+		if at < len(b) {
+			w.cause = "cache-file-truncated"
 		}
 	}
 }
